@@ -59,6 +59,14 @@ def run(ctx):
     for sp in rob:
         sp['opts']['robust'] = 2
     specs += rob
+    # large cost coefficients (prices in EUR/GWh): value and cash-flow table must still agree after the solve
+    specs += util.rescaled(gen.gen_many(ctx.seed, n // 4, dict(CFG, p_coarse=0.0, p_periodic=0.0), 'c04sc_'), 2.0 ** 22, 1.0)
+    # two-stage problem over price samples, decoded by the same output function
+    slp = gen.gen_many(ctx.seed, n // 4, dict(CFG, p_coarse=0.0, p_periodic=0.0, p_full_exec=0.0, p_no_simult=0.0, T=(4, 8),
+                                              kinds={'SimpleContract': 2, 'Contract': 2, 'Transport': 2, 'Storage': 3, 'MultiCommodityContract': 1}), 'c04slp_')
+    for i, sp in enumerate(slp):
+        sp['opts']['slp'] = 1 + i % 3
+    specs += slp
     specs = ctx.specs(specs)
     res = C.run_impl('portfolio', specs)
     exprs, owners = [], []
@@ -80,6 +88,13 @@ def run(ctx):
         exprs.append(case_expr(o, prob['c'], prob['mapping'], o['xr'], o['out_r']['DCF']))
         owners.append((sp, 'monolithic'))
         ctx.sample({'spec': sp, 'mode': 'monolithic'})
+        q = o.get('slp')
+        if isinstance(q, dict):
+            ctx.count('slp:' + str(q.get('solve')))
+            if q.get('solve') == 'crash':
+                ctx.violation('impl-violation', {'spec': sp, 'mode': 'slp', 'observed': q.get('error'), 'expected': 'make_slp / optimize / extract_output work'}, trigger={'mode': 'slp-crash'})
+            elif q.get('solve') == 'optimal':
+                accounting_oracle(ctx, sp, o, 'slp', q['c'], q['mapping'], q['x'], q['value'], q['out'])
         s = o.get('split')
         if isinstance(s, dict) and ('setup_error' in s or s.get('out_r') is None):
             ctx.count('split_error:' + str(s.get('setup_error') or s.get('out_r_error'))[:60])
